@@ -295,17 +295,17 @@ def check_func(src):
             continue
         init = fn.init
         items = [] if init is None else (init.decls if cls(init) == "DeclList" else (init.exprs if cls(init) == "ExprList" else [init]))
-        lv, src = set(), set()
+        lv, srcs = set(), set()
         for it in items:
             if cls(it) == "Decl":
                 lv.add(it.name)
                 if it.init is not None and cls(it.init) == "ID":
-                    src.add(it.init.name)
+                    srcs.add(it.init.name)
             elif cls(it) == "Assignment":
                 if cls(it.lvalue) == "ID":
                     lv.add(it.lvalue.name)
                 if cls(it.rvalue) == "ID":
-                    src.add(it.rvalue.name)
+                    srcs.add(it.rvalue.name)
         nxt = set()
 
         def ids(n):
@@ -316,7 +316,30 @@ def check_func(src):
             for _, _, c in D.children(n):
                 ids(c)
         ids(fn.next)
-        dropped = sorted(src - lv - nxt - {xvar})
+        # the guard of an accepted counted loop is not read or written by an assignment / ++ / -- of the body (independent scan;
+        # props/C05.v: C05_accepted_guard_not_in_body is the model-side statement)
+        def uses(n, acc, live):
+            c_ = cls(n)
+            if c_ == "UnaryOp" and n.op == "sizeof":
+                return
+            if c_ == "FuncCall" and is_noop_call(n):
+                return
+            if c_ == "Label":
+                return      # the analysis skips a labelled statement as a whole (open finding covered-but-skipped Label)
+            here = live or c_ == "Assignment" or (c_ == "UnaryOp" and n.op in INCDEC)
+            if c_ == "ID" and here:
+                acc.add(n.name)
+            for s_, _, ch in D.children(n):
+                if s_ == "cond" and c_ in COND_OWNERS:
+                    continue      # an effect in a condition is reported as effect-in-condition (open finding), not here
+                uses(ch, acc, here)
+        used = set()
+        if fn.stmt is not None:
+            uses(fn.stmt, used, False)
+        if xvar in used:
+            fail(f"guard-in-body-accepted: for-loop accepted as `loop {xvar}` although an assignment / ++ / -- in its body reads or writes {xvar}",
+                 ["guard-in-body-accepted"], "a counted loop whose guard does not occur in the body", _c(fn)[:200])
+        dropped = sorted(srcs - lv - nxt - {xvar})
         if dropped:
             fail(f"header-source-dropped: for-loop accepted as `loop {xvar}` although its header also copies {dropped} into an iterator; that flow is ignored",
                  ["header-source-dropped"], "a for header with one guard variable", _c(fn.init))
